@@ -49,6 +49,7 @@ type Sched struct {
 	steps          int
 	Trace          []Step
 	Switches       int
+	StatePoints    int // scheduling points reached through runtime.VerifSchedPoint (module state accesses)
 	Deadlock       string
 	MaxSteps       int
 
@@ -468,6 +469,7 @@ func (s *Sched) syncBlocked(op string, addr unsafe.Pointer) { s.point("blocked-"
 //go:norace
 func (s *Sched) statePoint() {
 	if runtime.VerifCanYield() && s.isTask(runtime.VerifGoid()) {
+		s.StatePoints++
 		s.point("state", nil, nil)
 	}
 }
